@@ -94,7 +94,7 @@ EXPECTED_PROBES = [
     "probe.px_accepted_for_stale_ballot", "probe.px_future_resolved",
     "probe.ml_leader_change", "probe.ml_two_leaders_at_once", "probe.ml_accept_out_of_order", "probe.ml_truncate",
     "probe.ml_commit_via_heartbeat", "probe.ml_pending_assigned_on_takeover", "probe.ml_future_resolved",
-    "probe.ml_leader_kept_leading_after_own_tick", "probe.ml_command_after_first_tick_applied_everywhere",
+    "probe.ml_promise_reported_entries", "probe.ml_leader_kept_leading_after_own_tick", "probe.ml_command_after_first_tick_applied_everywhere",
     "probe.flex_q2_below_majority", "probe.px_decided_on_retried_ballot", "probe.px_four_proposers",
     "probe.el_election_completed", "probe.el_heartbeat_adopted", "probe.el_terms_differ_for_one_leader",
     "probe.lock_expired", "probe.lock_waiter_woken", "probe.lock_reentrant", "probe.lock_stale_release_refused",
